@@ -64,6 +64,35 @@ def run_case(c):
         fc = fine(arr(c["pos"]), c["si"], c["ei"])
         f, total = fc.interpSSperp(np.array([fh(c["vec"][0]), fh(c["vec"][1])]))
         return dict(s_perp=hx(f.x), total=float(total).hex(), values=[float(f(fh(v))).hex() for v in c["x"]])
+    if c["kind"] == "equalise":
+        import warnings as W
+        pos = arr(c["pos"])
+        fc = object.__new__(FineContour)
+        fc.positions = pos.copy()
+        fc.distance = None
+        fc.extend_lower_fine = c["el"]
+        fc.extend_upper_fine = len(pos) - c["nfine"] - c["el"]
+        fc.startInd = c["el"]
+        fc.endInd = c["nfine"] - 1 + c["el"]
+        fc.indices_fine = np.linspace(-fc.extend_lower_fine, (c["nfine"] - 1 + fc.extend_upper_fine), c["nfine"] + fc.extend_lower_fine + fc.extend_upper_fine)
+        uo = Obj()
+        uo.finecontour_atol = fh(c["atol"])
+        uo.finecontour_maxits = c["maxits"]
+        uo.finecontour_Nfine = c["nfine"]
+        uo.finecontour_overdamping_factor = fh(c["damping"])
+        uo.finecontour_diagnose = False
+        fc.user_options = uo
+        calls = [0]
+
+        def refine(*, psi, skip_endpoints=False, **kw):      # the contract of the model: stubbed to the identity
+            calls[0] += 1
+            assert skip_endpoints
+            return fc
+        fc.refine = refine
+        with W.catch_warnings(record=True) as wl:
+            W.simplefilter("always")
+            fc.equaliseSpacing(psi=None)
+        return dict(positions=[hx(p) for p in fc.positions], warned=any("maximum iterations" in str(w.message) for w in wl), refine_calls=calls[0], distance=hx(fc.distance))
     if c["kind"] == "zshift":
         table = {}
         regions = {}
